@@ -113,7 +113,7 @@ def load_lock():
 
 
 def write_replay(pid, name, payload):
-    d = os.path.join(HERE, 'replays', pid)
+    d = os.path.join(HERE, 'replays', ('_scratch/' if os.environ.get('VERIF_NO_EVIDENCE') else '') + pid)
     os.makedirs(d, exist_ok=True)
     safe = ''.join(ch if ch.isalnum() or ch in '._-' else '_' for ch in name)[:120]
     path = os.path.join(d, safe + '.json')
@@ -317,9 +317,10 @@ def check(pid, tier, seed, update_lock=False):
         'wall_s': round(time.time() - t0, 2), 'violations': len(violations),
         'known_findings_hit': [h['key'] for h, _ in known_hits],
     }
-    os.makedirs(os.path.join(HERE, 'evidence'), exist_ok=True)
-    with open(os.path.join(HERE, 'evidence', pid + '.json'), 'w') as fh:
-        json.dump(ev, fh, indent=1, default=str)
+    if not os.environ.get('VERIF_NO_EVIDENCE'):      # (development runs against scratch trees)
+        os.makedirs(os.path.join(HERE, 'evidence'), exist_ok=True)
+        with open(os.path.join(HERE, 'evidence', pid + '.json'), 'w') as fh:
+            json.dump(ev, fh, indent=1, default=str)
     if update_lock and rc == 0:
         lk = load_lock()
         lk[pid] = sorted(k for k, v in fam_status.items() if v == 'discharged')
